@@ -110,11 +110,14 @@ def build(job):
         (r,) = mk_recs(eng, params["shape"])
         bad = Or([_s(r.prefix) == _s(s) for s in r.psyn], [_s(r.uri_prefix) == _s(s) for s in r.usyn])
         try:
-            api.Record(**r.kwargs())
+            obj = api.Record(**r.kwargs())
         except ValueError:
             eng.check_holds(bad, "Record rejected although neither canonical value is among its own synonyms")
             return "invalid"
         eng.check_holds(z3.Not(bad), "Record accepted its canonical prefix / URI prefix among its own synonyms")
+        # ... and the stored record (after whatever normalisation the model applies) does not list them either
+        eng.expect(not any(sym_eq(obj.prefix, s) for s in obj.prefix_synonyms) and not any(sym_eq(obj.uri_prefix, s) for s in obj.uri_prefix_synonyms),
+                   "a constructed Record lists its own canonical prefix / URI prefix among its synonyms")
         return "valid"
 
     def loaders(eng):
